@@ -660,4 +660,122 @@ theorem tryParseLabel_fuel (n : Nat) (target cp sub : Str) (hn : target.length <
   unfold tryParseLabel
   rw [parseParts_fuel (target.length + 1) n target cp sub (by omega) hn]
 
+
+/-! ### a sequence inside a longer command: `pre ++ $(kw arg) ++ post` with no other `$` -/
+
+/-- A `$`-free prefix is copied by every pass. -/
+theorem replaceAll_prefix (kw : Str) (f : Str → Except Err Str) : ∀ (pre s : Str) (n : Nat), '$' ∉ pre →
+    replaceAll kw f (n + pre.length) (pre ++ s) = (do let t ← replaceAll kw f n s; pure (pre ++ t)) := by
+  intro pre
+  induction pre with
+  | nil => intro s n _; simp only [List.length_nil, Nat.add_zero, List.nil_append]; cases replaceAll kw f n s <;> rfl
+  | cons c cs ih =>
+    intro s n hd
+    have hc : c ≠ '$' := by intro e; apply hd; simp [e]
+    have hcs : '$' ∉ cs := by intro e; apply hd; simp [e]
+    rw [show n + (c :: cs).length = (n + cs.length) + 1 from by simp; omega, List.cons_append,
+      replaceAll_step_none (matchSeq_no_dollar hc), ih s n hcs]
+    cases replaceAll kw f n s <;> rfl
+
+/-- The text of a command with one sequence in the middle. -/
+def inCtx (pre mid post : Str) : Str := pre ++ mid ++ post
+
+theorem seqPass_other_ctx (q : QuoteFacts) (root : Str) (t : Target) (test : Bool) (sd : SeqDef) (kw arg pre post : Str)
+    (hne : kw ≠ sd.kw) (h1 : ' ' ∉ kw) (h2 : ' ' ∉ sd.kw) (hk : '$' ∉ kw) (ha : '$' ∉ arg)
+    (hpre : '$' ∉ pre) (hpost : '$' ∉ post) :
+    seqPass q root t test sd (inCtx pre (seqText kw arg) post) = .ok (inCtx pre (seqText kw arg) post) := by
+  unfold seqPass inCtx
+  have hlen : (pre ++ seqText kw arg ++ post).length = ((seqText kw arg ++ post).length) + pre.length := by
+    simp; omega
+  rw [hlen, List.append_assoc, replaceAll_prefix _ _ pre _ _ hpre, seqText_cons]
+  have hm := matchSeq_other_kw kw sd.kw (arg ++ [')'] ++ post) hne h1 h2
+  simp only [List.cons_append, List.nil_append, List.append_assoc] at hm ⊢
+  have hd : '$' ∉ '(' :: (kw ++ ' ' :: (arg ++ ')' :: post)) := by
+    simp only [List.mem_cons, List.mem_append, not_or]
+    exact ⟨by decide, hk, by decide, ha, by decide, hpost⟩
+  rw [List.length_cons, replaceAll_step_none hm, replaceAll_no_dollar _ _ _ _ (Nat.le_refl _) hd]
+  rfl
+
+theorem seqPass_self_ctx (q : QuoteFacts) (root : Str) (t : Target) (test : Bool) (sd : SeqDef) (arg pre post : Str)
+    (ha : arg ≠ []) (hp : ')' ∉ arg) (hoff : sd.off = sd.kw.length + 3) (hpre : '$' ∉ pre) (hpost : '$' ∉ post) :
+    seqPass q root t test sd (inCtx pre (seqText sd.kw arg) post) =
+      (do let r ← replaceSequence q root t arg sd.runnable sd.multiple sd.dir sd.outPrefix sd.hash test
+          pure (inCtx pre r post)) := by
+  unfold seqPass inCtx
+  have hlen : (pre ++ seqText sd.kw arg ++ post).length = ((seqText sd.kw arg ++ post).length) + pre.length := by
+    simp; omega
+  rw [hlen, List.append_assoc, replaceAll_prefix _ _ pre _ _ hpre]
+  have hm := matchSeq_self sd.kw arg post ha hp
+  have hc := seqText_cons sd.kw arg
+  have hlen2 : (seqText sd.kw arg).length = sd.kw.length + 3 + arg.length + 1 := by simp [seqText]; omega
+  have hslice : ((seqText sd.kw arg).drop sd.off).take ((seqText sd.kw arg).length - sd.off - 1) = arg := by
+    rw [hoff, hlen2]
+    have e : seqText sd.kw arg = (['$', '('] ++ sd.kw ++ [' ']) ++ (arg ++ [')']) := by simp [seqText]
+    have hl : (['$', '('] ++ sd.kw ++ [' ']).length = sd.kw.length + 3 := by simp
+    rw [e, ← hl, List.drop_left]
+    have : (['$', '('] ++ sd.kw ++ [' ']).length + arg.length + 1 - (['$', '('] ++ sd.kw ++ [' ']).length - 1 = arg.length := by omega
+    rw [this, List.take_left]
+  have hno : ¬ (sd.off + 1 > (seqText sd.kw arg).length) := by rw [hoff, hlen2]; omega
+  generalize seqText sd.kw arg = s at *
+  subst hc
+  simp only [List.cons_append] at hm ⊢
+  rw [List.length_cons, replaceAll_step_some hm, replaceAll_no_dollar _ _ _ _ (by simp; omega) hpost]
+  simp only [hno, ↓reduceIte, hslice]
+  cases replaceSequence q root t arg sd.runnable sd.multiple sd.dir sd.outPrefix sd.hash test with
+  | error e => rfl
+  | ok r => simp [bind, Except.bind, pure, Except.pure]
+
+theorem not_mem_append3 {c : Char} {a b d : Str} (h1 : c ∉ a) (h2 : c ∉ b) (h3 : c ∉ d) : c ∉ inCtx a b d := by
+  simp [inCtx, h1, h2, h3]
+
+/-- One sequence inside a command with no other `$`: rejected exactly when `replaceSequence` rejects … -/
+theorem replaceSequences_ctx_err (seqs : List SeqDef) (hs : SeqsOK seqs) (q : QuoteFacts) (root : Str) (t : Target)
+    (test : Bool) (sd : SeqDef) (hsd : sd ∈ seqs) (arg pre post : Str) (ha : arg ≠ []) (hp : ')' ∉ arg) (hd : '$' ∉ arg)
+    (hpre : '$' ∉ pre) (hpost : '$' ∉ post) (e : Err)
+    (hr : replaceSequence q root t arg sd.runnable sd.multiple sd.dir sd.outPrefix sd.hash test = .error e) :
+    replaceSequences seqs q root t test (inCtx pre (seqText sd.kw arg) post) = .error e := by
+  obtain ⟨pre', post', rfl⟩ := List.append_of_mem hsd
+  obtain ⟨hnd, hall⟩ := hs
+  have hsdok := hall sd (by simp)
+  have hpre' : ∀ x ∈ pre', sd.kw ≠ x.kw := by
+    intro x hx e
+    rw [List.map_append, List.map_cons, List.nodup_append] at hnd
+    exact hnd.2.2 x.kw (List.mem_map.mpr ⟨x, hx, rfl⟩) sd.kw (by simp) e.symm
+  have e1 : pre'.foldlM (fun c sd => seqPass q root t test sd c) (inCtx pre (seqText sd.kw arg) post) =
+      .ok (inCtx pre (seqText sd.kw arg) post) :=
+    foldlM_id _ pre' _ (fun x hx => by
+      have hx' := hall x (by simp [hx])
+      exact seqPass_other_ctx q root t test x sd.kw arg pre post (hpre' x hx) hsdok.1 hx'.1 hsdok.2.1 hd hpre hpost)
+  unfold replaceSequences
+  rw [List.foldlM_append, e1]
+  simp only [bind, Except.bind, List.foldlM_cons, seqPass_self_ctx q root t test sd arg pre post ha hp hsdok.2.2 hpre hpost, hr]
+
+/-- … and otherwise the expansion replaces the sequence in place, the rest of the command untouched. -/
+theorem replaceSequences_ctx_ok (seqs : List SeqDef) (hs : SeqsOK seqs) (q : QuoteFacts) (root : Str) (t : Target)
+    (test : Bool) (sd : SeqDef) (hsd : sd ∈ seqs) (arg pre post : Str) (ha : arg ≠ []) (hp : ')' ∉ arg) (hd : '$' ∉ arg)
+    (hpre : '$' ∉ pre) (hpost : '$' ∉ post) (r : Str)
+    (hr : replaceSequence q root t arg sd.runnable sd.multiple sd.dir sd.outPrefix sd.hash test = .ok r) (hdr : '$' ∉ r) :
+    replaceSequences seqs q root t test (inCtx pre (seqText sd.kw arg) post) = .ok (inCtx pre r post) := by
+  obtain ⟨pre', post', rfl⟩ := List.append_of_mem hsd
+  obtain ⟨hnd, hall⟩ := hs
+  have hsdok := hall sd (by simp)
+  have hpre' : ∀ x ∈ pre', sd.kw ≠ x.kw := by
+    intro x hx e
+    rw [List.map_append, List.map_cons, List.nodup_append] at hnd
+    exact hnd.2.2 x.kw (List.mem_map.mpr ⟨x, hx, rfl⟩) sd.kw (by simp) e.symm
+  have e1 : pre'.foldlM (fun c sd => seqPass q root t test sd c) (inCtx pre (seqText sd.kw arg) post) =
+      .ok (inCtx pre (seqText sd.kw arg) post) :=
+    foldlM_id _ pre' _ (fun x hx => by
+      have hx' := hall x (by simp [hx])
+      exact seqPass_other_ctx q root t test x sd.kw arg pre post (hpre' x hx) hsdok.1 hx'.1 hsdok.2.1 hd hpre hpost)
+  have hnd' : '$' ∉ inCtx pre r post := not_mem_append3 hpre hdr hpost
+  have e2 : post'.foldlM (fun c sd => seqPass q root t test sd c) (inCtx pre r post) = .ok (inCtx pre r post) :=
+    foldlM_id _ post' _ (fun x _ => by
+      unfold seqPass
+      exact replaceAll_no_dollar _ _ _ _ (Nat.le_refl _) hnd')
+  unfold replaceSequences
+  rw [List.foldlM_append, e1]
+  simp only [bind, Except.bind, List.foldlM_cons, seqPass_self_ctx q root t test sd arg pre post ha hp hsdok.2.2 hpre hpost, hr,
+    pure, Except.pure, e2, unescapeDollar_no_dollar _ hnd']
+
 end PlzVerif.Cmd
